@@ -20,8 +20,8 @@ theorem C13_requested (v : Ver) :
 /-- **C13 (HTTP/1 target).** On an HTTP/1 connection a well-formed non-CONNECT request goes out in
     origin-form: no scheme, no authority, path and query exactly as given, an empty path `/`;
     CONNECT goes out in authority-form. Method unchanged, connection version stamped. -/
-theorem C13_h1_target (dbg : Bool) (r : Req) (hw : wellFormed r = true) :
-    ∃ s, send dbg .h1 r = .sent s ∧ s.method = r.method ∧ s.version = .h1 ∧
+theorem C13_h1_target (r : Req) (hw : wellFormed r = true) :
+    ∃ s, send .h1 r = .sent s ∧ s.method = r.method ∧ s.version = .h1 ∧
       s.target = (if r.connect then specAuthority r.uri else specOrigin r.uri) := by
   unfold wellFormed at hw
   simp only [Bool.and_eq_true] at hw
@@ -41,14 +41,14 @@ theorem C13_h1_target (dbg : Bool) (r : Req) (hw : wellFormed r = true) :
 /-- **C13 (HTTP/1 Host header).** A Host header is present; if the caller supplied one it is left
     untouched, otherwise it is the URI host plus the port unless that is the scheme's default;
     every other header is preserved in order. -/
-theorem C13_h1_host (dbg : Bool) (r : Req) (h : String) (hw : wellFormed r = true)
+theorem C13_h1_host (r : Req) (h : String) (hw : wellFormed r = true)
     (hh : r.uri.host = some h) :
-    ∃ s, send dbg .h1 r = .sent s ∧
+    ∃ s, send .h1 r = .sent s ∧
       s.headers.filter (·.1 != "host") = r.headers.filter (·.1 != "host") ∧
       (hasHeader r.headers "host" = true → s.headers = r.headers) ∧
       (hasHeader r.headers "host" = false →
         s.headers = r.headers ++ [("host", hostHeaderValue r.uri h)]) := by
-  obtain ⟨s, hs, _, _, _⟩ := C13_h1_target dbg r hw
+  obtain ⟨s, hs, _, _, _⟩ := C13_h1_target r hw
   refine ⟨s, hs, ?_⟩
   have hsh : s.headers = (setHostHeader r).headers := by
     unfold send at hs
@@ -81,8 +81,8 @@ theorem C13_host_value (u : Uri) (h : String) (hk : knownScheme u = true) :
 /-- **C13 (HTTP/2 sanitised).** On an HTTP/2 connection the version is HTTP/2, the five
     connection-specific headers and Host are removed, everything else is preserved in order, and
     the target is untouched. -/
-theorem C13_h2_sanitised (dbg : Bool) (r : Req) (hc : r.connect = false) :
-    ∃ s, send dbg .h2 r = .sent s ∧ s.version = .h2 ∧ s.method = r.method ∧
+theorem C13_h2_sanitised (r : Req) (hc : r.connect = false) :
+    ∃ s, send .h2 r = .sent s ∧ s.version = .h2 ∧ s.method = r.method ∧
       s.headers = r.headers.filter (fun h => !(connectionHeaders ++ ["host"]).contains h.1) ∧
       (∀ h ∈ s.headers, h.1 ∉ connectionHeaders ++ ["host"]) ∧
       s.target = untouched r.uri := by
@@ -94,15 +94,15 @@ theorem C13_h2_sanitised (dbg : Bool) (r : Req) (hc : r.connect = false) :
   simpa using hh.2
 
 /-- **C13 (HTTP/2 CONNECT rejected).** -/
-theorem C13_h2_connect_rejected (dbg : Bool) (r : Req) (hc : r.connect = true) :
-    send dbg .h2 r = .errInvalidMethod := by
+theorem C13_h2_connect_rejected (r : Req) (hc : r.connect = true) :
+    send .h2 r = .errInvalidMethod := by
   simp [send, hc]
 
 /-- Non-vacuity: an `https` request with an explicit default port and an empty path. -/
 example :
     let r : Req := ⟨false, "GET", ⟨some "https", some "example.com", some 443, "", some "q=1"⟩, .h11, [("accept", "*/*")]⟩
     wellFormed r = true ∧
-    send true .h1 r = .sent ⟨"GET", ⟨none, none, none, "/", some "q=1"⟩, .h1,
+    send .h1 r = .sent ⟨"GET", ⟨none, none, none, "/", some "q=1"⟩, .h1,
       [("accept", "*/*"), ("host", "example.com")]⟩ := by
   decide
 
